@@ -58,7 +58,7 @@ Proof. vm_compute. repeat split; reflexivity. Qed.
 
 (* (I6) needs [sched_ok]: the run permit of a paused engine is released without resume(); the
    plan runs to completion with the interruption mark still set by the pause *)
-Definition ev_spurious : list event := ev_paused ++ [EvPermit; EvTask; EvTask; EvTask; EvTask].
+Definition ev_spurious : list event := ev_paused ++ [EvPermit; EvTask; EvTask; EvTask; EvTask; EvTask].
 Example spurious_permit_breaks_cause :
   let r := trun tape3 [] [] ev_spurious in
   state _ _ (fst r) = Idle /\ pc _ _ (fst r) = PcDone (TReturn VNone) /\
